@@ -808,7 +808,7 @@ def evaluate(case: dict) -> Outcome:
 
 
 def replay(case: dict) -> list[str]:
-    return [f"{clause}: {detail}" for clause, ok, _, detail in evaluate(case) if not ok]
+    return [f"{_label(clause, case)}: {detail}" for clause, ok, _, detail in evaluate(case) if not ok]
 
 
 # ------------------------------------------------------------------------------------------------
@@ -880,12 +880,35 @@ def _f5_offset_touching_chain(clause: str, case: dict) -> bool:
                for i in range(len(pieces) - 2))
 
 
-FINDING_CLASSES: dict[str, Callable[[str, Any], bool]] = {
+_RAW_CLASSES: dict[str, Callable[[str, Any], bool]] = {
     "C04-F5": _f5_offset_touching_chain,
     "C04-F1": _f1_offset_end_on_wrap_point,
     "C04-F2": _f2_distance_envelope,
     "C04-F3": _f3_extend_keeps_introns,
     "C04-F4": _f4_extend_origin_spanning_overrun,
+}
+
+
+_DOMAIN_TAG = " [inputs of "
+
+
+def _label(clause: str, case: dict) -> str:
+    """Evaluations on inputs inside the class of a listed finding are reported under their own clause label
+    (`<clause> [inputs of Cxx-Fn]`), so that the known failures cannot crowd the driver's per-clause
+    failure samples and hide a new violation of the same clause on other inputs. The clause itself is the same
+    strict one on both sides."""
+    for finding, predicate in _RAW_CLASSES.items():
+        if predicate(clause, case):
+            return f"{clause}{_DOMAIN_TAG}{finding}]"
+    return clause
+
+
+def _stripped(predicate: Callable[[str, Any], bool]) -> Callable[[str, Any], bool]:
+    return lambda clause, case: predicate(clause.split(_DOMAIN_TAG)[0], case)
+
+
+FINDING_CLASSES: dict[str, Callable[[str, Any], bool]] = {
+    finding: _stripped(predicate) for finding, predicate in _RAW_CLASSES.items()
 }
 
 
@@ -1263,7 +1286,7 @@ def _report(run: Any, case: dict) -> None:
     for clause, ok, nontrivial, detail in outcome:
         if key is None and nontrivial:
             key = repr(case)
-        run.check(clause, ok, case, nontrivial=nontrivial, detail=detail if not ok else "", key=key)
+        run.check(_label(clause, case), ok, case, nontrivial=nontrivial, detail=detail if not ok else "", key=key)
     if case["fn"] == "connect":
         run.count(max(0, 2 * len(set(itertools.permutations(range(len(case["locs"]))))) - 2)
                   if case.get("orders") != "rotations" else 4 * len(case["locs"]))
